@@ -351,6 +351,8 @@ fn mux_command(
             if !video_path.exists() {
                 anyhow::bail!("Video input file does not exist: {}", video_path.display());
             }
+            // A dry run vouches for the inputs, so it has to look at them.
+            validate_hex_file(video_path, "video")?;
             if verbose {
                 eprintln!("✓ Video input: {}", video_path.display());
             }
@@ -360,6 +362,7 @@ fn mux_command(
             if !audio_path.exists() {
                 anyhow::bail!("Audio input file does not exist: {}", audio_path.display());
             }
+            validate_hex_file(audio_path, "audio")?;
             if verbose {
                 eprintln!("✓ Audio input: {}", audio_path.display());
             }
